@@ -100,6 +100,28 @@ PixelOK(g, ext, q, i, j, obs) ==
                          \/ InInsetStrip(g, q, i, j)
                          \/ (~Contained(ext, q) /\ NoTilesPossible(g, q))
 
+\* ---- requests in another reference system than the grid ----
+\* p = [gx, gy, fx, fy]: where the centre of the output pixel lies in the coordinates of the grid, and how far one output
+\* pixel reaches there (all in 1/1000 lattice units; the two differ from pixel to pixel - a Mercator pixel covers less
+\* and less degrees towards the poles).  obs = <<level, cx, cy>> as above.  One and a half output pixels, measured with
+\* the pixel's own extent; nothing shown outside the layer extent, nothing blank inside it (two pixels: the request is
+\* answered from tiles cut at the extent, as for requests reaching beyond it above).
+ReprojDist(c0, c1, v) == Max3(0, c0 - v, v - c1)
+ReprojPixelOK(g, ext, p, obs) ==
+  LET l  == obs[1]
+      x0 == 1000 * (g.bbox[1] + obs[2] * Res(g, l))        x1 == 1000 * (g.bbox[1] + (obs[2] + 1) * Res(g, l))
+      y0 == 1000 * (g.bbox[2] + obs[3] * Res(g, l))        y1 == 1000 * (g.bbox[2] + (obs[3] + 1) * Res(g, l))
+      in(k)  == /\ p.gx - k * p.fx >= 1000 * ext[1] /\ p.gx + k * p.fx <= 1000 * ext[3]
+                /\ p.gy - k * p.fy >= 1000 * ext[2] /\ p.gy + k * p.fy <= 1000 * ext[4]
+      out(k) == \/ p.gx + k * p.fx < 1000 * ext[1] \/ p.gx - k * p.fx > 1000 * ext[3]
+                \/ p.gy + k * p.fy < 1000 * ext[2] \/ p.gy - k * p.fy > 1000 * ext[4]
+  IN /\ p.fx > 0 /\ p.fy > 0
+     /\ l # -1 => /\ l \in Levels(g)
+                  /\ 2 * ReprojDist(x0, x1, p.gx) <= 3 * p.fx
+                  /\ 2 * ReprojDist(y0, y1, p.gy) <= 3 * p.fy
+                  /\ ~out(2)
+     /\ l = -1 => ~in(2)
+
 \* a request that is exactly one stored tile returns that tile unresampled: every pixel shows its own cell
 IsOneTile(g, q) == \E l \in Levels(g) : \E t \in InGridTiles(g, l) :
                       TileBBox(g, t) = <<q[1], q[2], q[3], q[4]>> /\ q[5] = g.tw /\ q[6] = g.th
